@@ -38,6 +38,12 @@ TEMPLATES = {
     "sign_with": "pub fn probe(t: UnsealedToken<V, Public, M>, k: &Key<{KV}, {K}>) {{ let _ = t.sign(k); }}",
     "decrypt_with": "pub fn probe(t: SealedToken<V, Local, M>, k: &Key<{KV}, {K}>) {{ let _ = t.decrypt(k, " + NV + "); }}",
     "verify_with": "pub fn probe(t: SealedToken<V, Public, M>, k: &Key<{KV}, {K}>) {{ let _ = t.verify(k, " + NV + "); }}",
+    "seal_public_with": "pub fn probe(t: UnsealedToken<V, Public, M>, k: &Key<{KV}, {K}>) {{ let _ = t.seal(k, &[]); }}",
+    "seal_local_with": "pub fn probe(t: UnsealedToken<V, Local, M>, k: &Key<{KV}, {K}>) {{ let _ = t.seal(k, &[]); }}",
+    "nonce_seal_public_with": "pub fn probe(t: UnsealedToken<V, Public, M>, k: &Key<{KV}, {K}>) {{ let _ = t.dangerous_seal_with_nonce(k, &[], Vec::new()); }}",
+    "nonce_seal_local_with": "pub fn probe(t: UnsealedToken<V, Local, M>, k: &Key<{KV}, {K}>) {{ let _ = t.dangerous_seal_with_nonce(k, &[], vec![0u8; 32]); }}",
+    "unseal_public_with": "pub fn probe(t: SealedToken<V, Public, M>, k: &Key<{KV}, {K}>) {{ let _ = t.unseal(k, &[], " + NV + "); }}",
+    "unseal_local_with": "pub fn probe(t: SealedToken<V, Local, M>, k: &Key<{KV}, {K}>) {{ let _ = t.unseal(k, &[], " + NV + "); }}",
     "wrap_pie_with": "pub fn probe(x: Key<V, Local>, k: &Key<{KV}, {K}>) {{ let _ = x.wrap_pie(k); }}",
     "unwrap_pie_with": "pub fn probe(x: PieWrappedKey<V, Local>, k: &Key<{KV}, {K}>) {{ let _ = x.unwrap(k); }}",
     "wrap_pie": "pub fn probe(x: Key<V, {K}>, w: &Key<V, Local>) {{ let _ = x.wrap_pie(w); }}",
